@@ -175,6 +175,8 @@ class Check:
 
     # -- housekeeping -----------------------------------------------------
     def _sig(self, signum, frame):
+        if os.getpid() != self._mainpid:
+            os._exit(0)     # pool worker being terminated
         sys.stderr.write("%s: interrupted by signal %d\n" % (self.prop, signum))
         sys.exit(EXIT_HARNESS)
 
